@@ -475,40 +475,27 @@ func checkBranchesTrim(p *load.Program, r *kit.Report) {
 		}
 		return true, b.Op == token.EQL
 	})
+	// elem.parentHeight >= height, in any linear spelling (`> height-1`, a local holding height-1, …)
+	lin := kit.NewLin(f)
 	phGE := kit.FindGuards(f, func(c ssa.Value) (bool, bool) {
-		b, ok := c.(*ssa.BinOp)
+		bo, ok := c.(*ssa.BinOp)
 		if !ok {
 			return false, false
 		}
-		x, y := kit.Strip(b.X), kit.Strip(b.Y)
-		op := b.Op
-		if y != ssa.Value(heightPrm) {
-			x, y = y, x
-			switch op {
-			case token.LSS:
-				op = token.GTR
-			case token.LEQ:
-				op = token.GEQ
-			case token.GTR:
-				op = token.LSS
-			case token.GEQ:
-				op = token.LEQ
-			}
+		// one side is a load of elem.parentHeight
+		isPH := func(v ssa.Value) bool {
+			fl, base := kit.LoadedField(kit.Strip(v))
+			return fl == phF && kit.Strip(base) == elem
 		}
-		if y != ssa.Value(heightPrm) {
+		if !isPH(bo.X) && !isPH(bo.Y) {
 			return false, false
 		}
-		fl, base := kit.LoadedField(x)
-		if fl != phF || kit.Strip(base) != elem {
-			return false, false
+		var phv ssa.Value = bo.X
+		if !isPH(bo.X) {
+			phv = bo.Y
 		}
-		switch op {
-		case token.GEQ:
-			return true, true
-		case token.LSS:
-			return true, false
-		}
-		return false, false
+		expr := lin.Of(phv).Sub(lin.Of(heightPrm))
+		return cmpMatches(lin, c, expr, 0)
 	})
 	badC := ""
 	switch {
